@@ -19,7 +19,7 @@ RULE = (
     "non-trivial = the screen has >=2 plates and the op is not a no-op on the model"
 )
 ASSUMPTIONS = ["revealing a set consisting only of unknown plate ids may either raise ValueError or return the screen unchanged", "refusal of all-zero values is judged only when every plate of the revealed set is all zero"]
-REQUIRED = {"constructor_cases_with_unusual_values": {"quick": 40, "thorough": 600}, "reveals_with_negative_unknown_id": {"quick": 60, "thorough": 900}, "history_steps_checked": {"quick": 2500, "thorough": 40000}, "reveals_checked": {"quick": 600, "thorough": 10000}, "refusals_checked": {"quick": 100, "thorough": 1500}, "constructor_cases": {"quick": 150, "thorough": 2500}, "cli_steps": {"quick": 100, "thorough": 1500}, "earlier_stage_rechecks": {"quick": 10000, "thorough": 150000}, "branches": {"quick": 200, "thorough": 3000}, "in_place_reveals": {"quick": 150, "thorough": 2000}}
+REQUIRED = {"cli_refusals_checked": {"quick": 60, "thorough": 800}, "constructor_cases_with_unusual_values": {"quick": 40, "thorough": 600}, "reveals_with_negative_unknown_id": {"quick": 60, "thorough": 900}, "history_steps_checked": {"quick": 2500, "thorough": 40000}, "reveals_checked": {"quick": 600, "thorough": 10000}, "refusals_checked": {"quick": 100, "thorough": 1500}, "constructor_cases": {"quick": 150, "thorough": 2500}, "cli_steps": {"quick": 100, "thorough": 1500}, "earlier_stage_rechecks": {"quick": 10000, "thorough": 150000}, "branches": {"quick": 200, "thorough": 3000}, "in_place_reveals": {"quick": 150, "thorough": 2000}}
 N_HIST = {"quick": 960, "thorough": 9600}
 
 
@@ -254,6 +254,22 @@ def run_shard(rec, tier, seed, shard, nshards):
                 pass
             except Exception as e:
                 rec.violation("C12/reveal/wrong-exception", "refusal raised %r instead of ValueError" % (e,), w)
+            if rng.random() < 0.5:
+                # the same refusal at the command line: no advanced screen may be published
+                rec.count("cli_refusals_checked")
+                f_in, f_out = os.path.join(tmp, "ref_in.h5"), os.path.join(tmp, "ref_out.h5")
+                if os.path.exists(f_out):
+                    os.remove(f_out)
+                s.save_h5(f_in)
+                try:
+                    kit.run_cli(cli_reveal.main, ["--screen", f_in, "--output", f_out, "--plate-id"] + [str(int(i)) for i in ids])
+                    rec.violation("C12/reveal/%s-values-accepted" % ("nan" if kind == "nan" else "all-zero"), "the reveal_plate command accepted plate %r whose stored values are %s" % (victim, kind), dict(w, via="cli"))
+                except ValueError:
+                    rec.check(not os.path.exists(f_out), "C12/reveal/%s-values-accepted" % ("nan" if kind == "nan" else "all-zero"), "the reveal_plate command refused but still wrote an output screen", dict(w, via="cli"))
+                except BaseException as e:
+                    if isinstance(e, (KeyboardInterrupt,)):
+                        raise
+                    rec.violation("C12/reveal/wrong-exception", "the reveal_plate command raised %r instead of ValueError" % (e,), dict(w, via="cli"))
             # the healthy plates of the same screen can still be revealed
             if kind != "nan":
                 other = [name_to_id[p] for p in plates if p != victim][:1]
